@@ -27,7 +27,7 @@ type lineStableCase struct {
 }
 
 func init() {
-	for _, prop := range []string{"C08", "C03"} {
+	for _, prop := range []string{"C08", "C03", "C07"} {
 		prop := prop
 		definePart(prop, strings.ToLower(prop)+"/line-stays-intact", "qt",
 			"every payload length 0..cap+cap/4 (cap: 256 B, 1 KB, 8 KB, default) x text/JSON layout x payload as context string / string field; 3 further events formatted before the first line is compared (1500 further events for 6 lengths per cap)",
